@@ -62,12 +62,28 @@ fn neighbours(s: &str, rng: &mut Rng, all: bool) -> Vec<String> {
     out.push(format!(" {}", s));
     out.push(format!("{}\0", s));
     out.push(String::new());
+    for w in REAL_WORLD {
+        out.push(w.to_string());
+    }
     for _ in 0..8 {
         let n = rng.usize(16);
         out.push(rng.ascii(n));
     }
     out
 }
+
+/// Identifiers that exist in the FIDO / WebAuthn world but are NOT members of these tables (other
+/// versions, extensions, transports, attestation formats, and each table's names offered to the
+/// other tables).
+pub const REAL_WORLD: [&str; 56] = [
+    "FIDO_2_2", "FIDO_2_3", "FIDO_2_1_POST", "U2F_V1", "U2F_V3", "FIDO_2", "FIDO2_0",
+    "payment", "credProps", "credBlob", "largeBlob", "minPinLength", "hmac-secret-mc", "prf", "uvm", "appid",
+    "appidExclude", "devicePubKey", "credentialProtectionPolicy", "hmacCreateSecret", "hmacGetSecret", "txAuthSimple",
+    "ble", "internal", "hybrid", "smart-card", "cable", "lightning", "bluetooth", "USB", "NFC",
+    "tpm", "android-key", "android-safetynet", "fido-u2f", "apple", "compound", "self", "basic", "None", "PACKED",
+    "FIDO_2_0", "FIDO_2_1", "FIDO_2_1_PRE", "U2F_V2", "credProtect", "hmac-secret", "largeBlobKey", "thirdPartyPayment",
+    "nfc", "usb", "none", "packed", "public-key", "rk", "up",
+];
 
 macro_rules! text_table {
     ($rep:expr, $rng:expr, $ty:ty, $table:expr, $name:expr) => {{
